@@ -70,13 +70,29 @@ def gen(seed, tier):
         # submissions inside the launch window: between accept() being called and `running` being set
         scripts[0][0] = ["wait-marker", "accept-call"]
     if race:
-        scripts[1] += [["sleep", rng.choice([0.0, ad / 2, ad, 0.3])], ["shutdown"]]
+        # submissions racing with a termination of any kind; a trio payload with shielded cleanup keeps the
+        # runtime "finishing its payloads' cleanup" for a while so that late adopts fall into that phase
+        how = rng.choice(["shutdown", "shutdown", "sigint", "fail"])
+        payloads.append({"id": "linger", "flavour": "trio", "via": "queued", "steps": [["block"]], "cleanup_async": rng.choice([0.3, 1.0]), "helper": True})
+        scripts[1] += [["sleep", rng.choice([0.0, ad / 2, ad, 0.3])]]
+        if how == "fail":
+            payloads.append({"id": "boom", "flavour": rng.choice(FL), "via": "adopt", "steps": [["raise", "LookupError"]], "helper": True, "trigger": True})
+            scripts[1] += [["adopt", "boom"]]
+        else:
+            scripts[1] += [[how]]
+        # a third thread keeps adopting while the runtime goes down
+        lscript = [["wait-marker", {"shutdown": "shutdown-call", "sigint": "sigint-sent", "fail": "raise:boom"}[how]]]
+        for i in range(rng.randint(1, 4)):
+            pid = "late%d" % i
+            payloads.append({"id": pid, "flavour": rng.choice(FL), "via": "adopt", "steps": [["block"]], "args": rng.choice(ARGS), "kwargs": rng.choice(KWARGS), "late": True})
+            lscript += [["sleep", rng.choice([0.0, 0.01, 0.05, 0.2])], ["adopt", pid]]
+        scripts.append(lscript)
         scripts[0] += [["sleep", settle + 2.0]]
     else:
         scripts[0] += [["sleep", settle], ["mark", "quiescent"], ["shutdown"]]
     knobs["horizon"] = 40.0
     rng.shuffle(payloads)
-    return {"prop": "C03", "seed": seed, "knobs": knobs, "payloads": payloads, "drivers": [{"id": "d0", "script": scripts[0]}, {"id": "d1", "script": scripts[1]}], "race": race, "window": window, "grace": 0.5}
+    return {"prop": "C03", "seed": seed, "knobs": knobs, "payloads": payloads, "drivers": [{"id": "d%d" % i, "script": sc_} for i, sc_ in enumerate(scripts)], "race": race, "window": window, "grace": 0.5}
 
 
 COROUTINE_ACTIVITY = ("start", "step", "hb", "cancelled", "cleanup-step", "cleanup-async-done", "finished")
@@ -102,7 +118,7 @@ def check(h, reason):
     window = h.sc.get("window")
     ended = next((e for e in ev if e["kind"] == "accept-ended"), None)
     end_seq = ended["seq"] if ended else 10**12
-    stop = next((e for e in ev if e["kind"] in ("shutdown-call", "stop-call", "sigint-sent")), None)
+    stop = next((e for e in ev if e["kind"] in ("shutdown-call", "stop-call", "sigint-sent") or (e["kind"] == "raise" and e.get("pid") == "boom")), None)
     stop_seq = stop["seq"] if stop else 10**12
     quiescent = next((e for e in ev if e["kind"] == "mark:quiescent"), None)
     q_seq = quiescent["seq"] if quiescent else None
